@@ -470,6 +470,14 @@ def _g2(ctx: Context) -> None:
                 (dotted(c.func) or "").endswith("create_task") for c in body_calls
             ):
                 per = not any(isinstance(x, (ast.Break, ast.Return, ast.Continue)) for x in ast.walk(n.ast))
+    # the same as a comprehension (the loader also spells a plain append loop this way): unfiltered, one task per element
+    for x in ast.walk(af.node):
+        if isinstance(x, (ast.ListComp, ast.SetComp, ast.GeneratorExp)) and len(x.generators) == 1:
+            g = x.generators[0]
+            calls = [c for y in ast.walk(x.elt) if isinstance(y, ast.Call) for c in [y]]
+            if ("transports" in ast.unparse(g.iter) and any(isinstance(c.func, ast.Attribute) and c.func.attr == "async_find" for c in calls)
+                    and any((dotted(c.func) or "").endswith("create_task") for c in calls)):
+                per = per or not g.ifs
     ck.check("C19.G2", per, "Controller.async_find: one finder task per transport",
              f"{ctx.fkey(af)}:per-transport", "Controller.async_find does not start a finder for every transport", af.loc())
     # finally: cancel + await the rest
